@@ -315,6 +315,25 @@ var unlockFns = map[string]bool{"deleteFromDelegatePool": true, "stake_pool_unlo
 
 var ptypeNames = map[int]string{1: "miner", 2: "sharder", 3: "blobber", 4: "validator", 5: "authorizer"}
 
+// stakeBoundsC11 reads min_stake / max_stake in force from the settings node of the contract in the given state.
+func (h *Hist) stakeBoundsC11(s snap.Snapshot, addr string) (lo, hi uint64, ok bool) {
+	typ, fmin, fmax := "", "", ""
+	switch addr {
+	case minersc.ADDRESS:
+		typ, fmin, fmax = "*minersc.GlobalNode", "MinStake", "MaxStake"
+	case storagesc.ADDRESS:
+		typ, fmin, fmax = "*storagesc.Config", "MinStake", "MaxStake"
+	case zcnsc.ADDRESS:
+		typ, fmin, fmax = "*zcnsc.GlobalNode", "ZCNSConfig.MinStakeAmount", "ZCNSConfig.MaxStakeAmount"
+	default:
+		return 0, 0, false
+	}
+	for _, n := range h.NodesOfType(s, typ) {
+		return U(n.Val, fmin), U(n.Val, fmax), true
+	}
+	return 0, 0, false
+}
+
 func monC11(h *Hist, o *TxnObs) {
 	if o.Txn.SmartContractData == nil {
 		return
@@ -390,6 +409,24 @@ func monC11(h *Hist, o *TxnObs) {
 		}
 		if post.Pools[staker].DelegateID != staker {
 			h.V("C11", "lock-pool-owner-wrong:"+ptype, fmt.Sprintf("delegate pool owner %q, staker %s", post.Pools[staker].DelegateID, h.name(staker)), o)
+		}
+		// "within the configured stake bounds": the bounds in force are the ones in the contract's settings node of the
+		// pre-state; the delegate pool a lock leaves behind (first lock or top-up) may not hold more than max_stake
+		if lo, hi, ok := h.stakeBoundsC11(o.Pre, o.Txn.ToClientID); ok {
+			h.C("C11", "locks_judged_against_stake_bounds")
+			bal := post.Pools[staker].Balance
+			if preBal > 0 {
+				h.C("C11", "top_up_locks_judged_against_stake_bounds")
+				if preBal+uint64(o.Txn.Value) > hi {
+					h.C("C11", "top_up_locks_that_would_exceed_max_stake_applied")
+				}
+			}
+			if hi > 0 && bal > hi {
+				h.V("C11", "lock-leaves-pool-above-max-stake:"+ptype, fmt.Sprintf("delegate pool of %s holds %d after a lock of %d, max_stake in force is %d", h.name(staker), bal, o.Txn.Value, hi), o)
+			}
+			if uint64(o.Txn.Value) < lo {
+				h.V("C11", "lock-below-min-stake-applied:"+ptype, fmt.Sprintf("a lock of %d was applied, min_stake in force is %d", o.Txn.Value, lo), o)
+			}
 		}
 		if (pre == nil || !hasPool(pre, staker)) && int64(len(post.Pools)) > post.MaxDelegates {
 			h.V("C11", "delegate-limit-exceeded:"+ptype, fmt.Sprintf("%d delegate pools, limit %d", len(post.Pools), post.MaxDelegates), o)
